@@ -427,9 +427,12 @@ func c15Run(c *C) {
 		c.Cover(fmt.Sprintf("options_tb=%v_ls=%v", tb, ls))
 		if longPlain != nil {
 			// the same compiled template, its options changed since its previous execution
-			if r.Bool() {
+			switch r.Intn(3) {
+			case 0:
 				longPlain.Options.TrimBlocks, longPlain.Options.LStripBlocks = tb, ls
-			} else {
+			case 1:
+				longPlain.Options = &pongo2.Options{TrimBlocks: tb, LStripBlocks: ls} // the exported field replaced wholesale
+			default:
 				longPlain.Options.Update(&pongo2.Options{TrimBlocks: tb, LStripBlocks: ls}) // the documented way to copy settings
 			}
 			lo, lerr := longPlain.Execute(wsCtx())
@@ -446,7 +449,11 @@ func c15Run(c *C) {
 			wsStrip(toks2, tb, ls)
 			var direct2 strings.Builder
 			wsDirect(doc, &direct2)
-			longChild.Options.TrimBlocks, longChild.Options.LStripBlocks = tb, ls
+			if r.Bool() {
+				longChild.Options.TrimBlocks, longChild.Options.LStripBlocks = tb, ls
+			} else {
+				longChild.Options = &pongo2.Options{TrimBlocks: tb, LStripBlocks: ls}
+			}
 			lo, lerr := longChild.Execute(wsCtx())
 			c.Eval(1)
 			if lerr != nil || lo != "["+direct2.String()+"]" {
